@@ -251,7 +251,8 @@ class C16(Prop):
         cfg = gen.GenCfg(n_ranks=1, n_steps=rng.choice([0, 1, 2]), p_launch=rng.choice([0.5, 0.8]), p_mem=0.15, p_sync=0.0,
                          adv=(1, 1, 2, 3), max_depth=rng.choice([3, 5]), max_children=rng.choice([3, 4]), ops_per_step=(2, 4),
                          kdelay=(1, 2, 3), kgap=(1, 2, 5), kdur=(1, 2, 3), base=rng.choice([0, 1000]), streams=rng.choice([(7,), (7, 9)]),
-                         pre_ops=2, post_ops=2)
+                         pre_ops=2, post_ops=2, unlinked_head=rng.choice([0, 1, 2]), p_drop_launch=rng.choice([0.0, 0.15]),
+                         p_unlisted_launch=rng.choice([0.0, 0.1]))
         case = case_from_cfg(rng, cfg)
         names = sorted({e["name"] for e in case["ranks"][0]["events"] if e.get("cat") == "cpu_op"})
         case["op"] = rng.choice(names)
